@@ -37,7 +37,11 @@ type ftRole struct {
 	vars     map[string]string
 }
 
-func (r *ftRole) UpdateStatus(s Status) { r.mu.Lock(); r.statuses = append(r.statuses, s); r.mu.Unlock() }
+func (r *ftRole) UpdateStatus(s Status) {
+	r.mu.Lock()
+	r.statuses = append(r.statuses, s)
+	r.mu.Unlock()
+}
 func (r *ftRole) UpdateState(s sm.State) {
 	r.mu.Lock()
 	r.states = append(r.states, s)
@@ -94,14 +98,14 @@ func ftTask(name string, owner uid.ID, critical bool) (*Task, *ftRole) {
 
 // ftCaller records the calls the scheduler side would send to the Mesos master.
 type ftCaller struct {
-	mu    sync.Mutex
-	kills []string // task ids of KILL calls
-	other int
+	mu         sync.Mutex
+	kills      []string // task ids of KILL calls
+	other      int
 	reconciles []int // number of tasks listed by each RECONCILE call (0 = implicit reconciliation)
 	accepts    []ftAccept
 	declined   []string // offer ids of DECLINE calls
-	fail  func(taskId string) bool
-	onKill func(taskId string) // what Mesos does after accepting a KILL (e.g. report TASK_KILLED)
+	fail       func(taskId string) bool
+	onKill     func(taskId string) // what Mesos does after accepting a KILL (e.g. report TASK_KILLED)
 }
 
 func (c *ftCaller) Call(ctx context.Context, call *scheduler.Call) (mesos.Response, error) {
